@@ -123,4 +123,29 @@ theorem integral_T (m : ℕ) :
       rw [e3, e4, if_neg (by omega)]
       simp
 
+/-- A rule that integrates `T_0, …, T_{n-1}` exactly integrates every polynomial of degree `< n`
+(Chebyshev basis of `degreeLT ℝ n`, Mathlib's `Polynomial.Sequence.span_degreeLT`). -/
+theorem quad_poly_of_chebyshev (ws xs : List ℝ) (n : ℕ) (hn : 1 ≤ n)
+    (h : ∀ m, m < n → quad ws xs (fun x => (T ℝ m).eval x) = ∫ x in (-1 : ℝ)..1, (T ℝ m).eval x)
+    (p : ℝ[X]) (hp : p.natDegree < n) :
+    quad ws xs (fun x => p.eval x) = ∫ x in (-1 : ℝ)..1, p.eval x := by
+  have hdeg : p.degree < n := by
+    by_cases h0 : p = 0
+    · subst h0; rw [Polynomial.degree_zero]; exact WithBot.bot_lt_coe _
+    · rw [degree_eq_natDegree h0]; exact_mod_cast hp
+  have hmem : p ∈ degreeLT ℝ n := by rwa [mem_degreeLT]
+  rw [← Sequence.span_degreeLT (chebyshevTsequence ℝ) (by simp),
+    show Set.Iio n = Finset.range n by simp,
+    Submodule.mem_span_image_finset_iff_exists_fun'] at hmem
+  obtain ⟨c, rfl⟩ := hmem
+  simp only [eval_finsetSum, eval_smul, smul_eq_mul]
+  rw [quad_finset_sum, intervalIntegral.integral_finsetSum]
+  · apply Finset.sum_congr rfl
+    intro i hi
+    rw [intervalIntegral.integral_const_mul]
+    congr 1
+    exact h i (mem_range.mp hi)
+  · intro i _
+    exact (Continuous.intervalIntegrable (by fun_prop) _ _)
+
 end GridVerif.OneD
